@@ -73,15 +73,15 @@ Proof.
   destruct (dict_check i s0 vs) as [n|].
   { apply nomod_tail_safe; [exact Hhold|exact I|repeat constructor]. }
   rewrite Ec, Hrm.
-  destruct (loop i false (dsel_of i names) vs names s0 false) as [ops e] eqn:El.
+  destruct (loop i false (dsel_of i names) vs [] names s0 false) as [ops e] eqn:El.
   assert (Hsegs : forall src' d', In src' names -> dsel_of i names src' = Some d' ->
-            forall s' ops r, lsub s0 s' -> file_ops i false s' src' d' (vs src') = (ops, r) ->
+            forall i' s' ops r, sim i i' -> lsub s0 s' -> file_ops i' false s' src' d' (vs src') = (ops, r) ->
                              Forall (avoids (eq org)) ops).
-  { intros src' d' Hin' Ed' s' ops' r' HL Ef.
+  { intros src' d' Hin' Ed' i' s' ops' r' _ HL Ef.
     apply (seg_avoid_from_mod _ _ _ _ _ _ _ _ _ Ef).
     - intros X. discriminate X.
     - intros q Hq X. subst q. apply (Hslots src' d' s' org Hin' Ed' HL Hq). reflexivity. }
-  destruct (loop_untouched rel i false (dsel_of i names) vs s0 org (f_bytes f0) (dst_of i names src) names _ _ _ _
+  destruct (loop_untouched rel i false (dsel_of i names) vs s0 org (f_bytes f0) (dst_of i names src) names _ _ _ _ _
               Hsegs Hhold (lsub_refl s0) El) as [Q1 [Q2 Q3]].
   apply all_pref_app. split; [exact Q1|].
   apply (untouched_safe rel org (f_bytes f0) _); [exact Q2|exact Q3|apply nomod_avoids; apply exit_of_nomod].
@@ -170,6 +170,33 @@ Proof.
   unfold sigint_ops. rewrite run_app, run_handler_ops. apply H.
 Qed.
 
+(* ------------------------------------------------------------------ a937acd: the output written for another input is never replaced *)
+
+(* a destination that is (UTIL_isSameFile) an output this command has completed for another input: the segment creates,
+   removes and writes nothing -- with -f and with a "y" too -- and reports a failure *)
+Theorem own_output_not_replaced_thm : forall i rm own s src p v ops r,
+  own_refused own s src p = true ->
+  file_ops (inv_for i own s src (DOwn p)) rm s src (DOwn p) v = (ops, r) ->
+  Forall nomod ops /\ r <> FThrow 0 /\ (r = FOk -> i_excl i = true).
+Proof.
+  intros i rm own s src p v ops r Hr Ef. cbn [inv_for] in Ef. rewrite Hr in Ef.
+  unfold own_refused in Hr. apply andb_true_iff in Hr. destruct Hr as [Hreg _].
+  destruct (look s p) as [|f| |t] eqn:El; try discriminate Hreg.
+  pose proof (file_ops_refused (no_ovw i) rm s src p v f ops r El eq_refl Ef) as Hn.
+  split; [exact Hn|].
+  unfold file_ops in Ef. destruct (src_gate (no_ovw i) s src v) eqn:Eg.
+  - inversion Ef. split; [discriminate|discriminate].
+  - inversion Ef. split; [discriminate|]. intros _. exact (gate_skip_excl _ _ _ _ Eg).
+  - destruct (codec (no_ovw i) (DOwn p) v) as [chunks out].
+    assert (E : open_dst (ovw (no_ovw i)) s v (Some src) p (negb (is_stdin src)) = ([], None)).
+    { unfold open_dst. destruct (same_file s src p); [reflexivity|]. rewrite El. reflexivity. }
+    rewrite E in Ef. inversion Ef. split; discriminate.
+Qed.
+
+(* the list of completed outputs only records a destination that was created, written and closed without error *)
+Lemma completes_own : forall i s src d v, completes i s src d v = true -> exists p, d = DOwn p.
+Proof. intros i s src d v H. destruct d; try discriminate H. eexists. reflexivity. Qed.
+
 (* ------------------------------------------------------------------ the prompt *)
 
 Lemma confirm_iff : forall i, confirm i = true <-> (i_answer i = Some 121 \/ i_answer i = Some 89).
@@ -225,10 +252,23 @@ Proof.
   - intros a t [Ha|[Ha|[]]] Es; subst a; vm_compute in Es; discriminate Es.
 Qed.
 
-(* the collision: the second output replaces the first one, both sources stay *)
+(* the collision: --rm is off (175caff), the first output is completed, the second source is refused because its
+   destination is the output written for the first one (a937acd): exit 1, both sources stay, out/a.zst is d1/a's output *)
 Example ex3_ops :
-  let ops := fio_ops ex3_inv no_ls ex3_fs (fun _ => ok_verdict [[7]]) in
-  run ops ex3_fs p_d1a = ex3_fs p_d1a /\ run ops ex3_fs p_d2a = ex3_fs p_d2a /\ exit_code ops = Some 0.
+  let ops := fio_ops ex3_inv no_ls ex3_fs (fun p => ok_verdict [p]) in
+  run ops ex3_fs p_d1a = ex3_fs p_d1a /\ run ops ex3_fs p_d2a = ex3_fs p_d2a /\ exit_code ops = Some 1 /\
+  run ops ex3_fs [111; 117; 116; 47; 97; 46; 122; 115; 116] = Reg (mkFile p_d1a true).
+Proof. vm_compute. repeat split; reflexivity. Qed.
+
+(* zstd -d -f --rm a.zst a.zstd (both -> a): the second source is refused and kept, the first output stays *)
+Definition p_azst : path := [97; 46; 122; 115; 116].
+Definition p_azstd : path := [97; 46; 122; 115; 116; 100].
+Definition ex4_inv : inv := mkInv Decompress [p_azst; p_azstd] OutDefault true [true] None false false None None.
+Definition ex4_fs : fs := upd (upd (fun _ => Absent) p_azst (Reg (mkFile [1] true))) p_azstd (Reg (mkFile [2] true)).
+Example ex4_ops :
+  let ops := fio_ops ex4_inv no_ls ex4_fs (fun p => mkVerdict [] Ret0 [FrOk [p]] None true true true true true true true) in
+  run ops ex4_fs p_azst = Absent /\ run ops ex4_fs p_azstd = ex4_fs p_azstd /\ exit_code ops = Some 1 /\
+  run ops ex4_fs [97] = Reg (mkFile p_azst true).
 Proof. vm_compute. repeat split; reflexivity. Qed.
 
 Example ex_nul_answer : confirm (mkInv Compress [[97]] OutDefault false [] (Some 0) false false None None) = false /\
